@@ -47,6 +47,13 @@ def rng_units():
 
 
 def plan(prop, tier):
+    if prop == "C18":
+        # container code is pattern-level (members the machines never instantiate are analysed as uninstantiated patterns)
+        us = [Unit("zoo1", os.path.join(VERIF, "witness", "zoo.cpp"), "all", True, extra=["-DZOO_PART=1"], patterns=True)]
+        if tier == "thorough":
+            us += [Unit("zoo1", os.path.join(VERIF, "witness", "zoo.cpp"), "all", True, flavour="development", extra=["-DZOO_PART=1"], patterns=True),
+                   Unit("zoo3", os.path.join(VERIF, "witness", "zoo.cpp"), "serial", False, extra=["-DZOO_PART=3"], patterns=True)]
+        return us
     if prop == "C20":
         us = rng_units()
         if tier == "thorough":
